@@ -23,6 +23,11 @@ func Reach(root interface{}, skip func(t reflect.Type) bool) map[uintptr]string 
 		if skip != nil && skip(t) {
 			return
 		}
+		if t == timeType {
+			// a time.Time points at its *time.Location: process-wide, immutable after creation (time.Local, time.UTC) -
+			// two objects that both hold a time value share nothing mutable through it
+			return
+		}
 		switch v.Kind() {
 		case reflect.Ptr:
 			if v.IsNil() {
